@@ -59,7 +59,7 @@ pub fn oracle(c: &PuCtx, rec: &mut Rec) {
 }
 
 pub fn jobs(tier: Tier) -> Vec<Job> {
-    let full = PuChecker { name: "c01-pu-full".into(), seeds: vec!["S0", "S1", "S2", "S2r", "S3", "S4", "S5", "S6", "S7", "S8", "S8a"], alpha: Alpha::Full, oracles: vec![oracle] };
+    let full = PuChecker { name: "c01-pu-full".into(), seeds: vec!["S0", "S1", "S2", "S2r", "S3", "S4", "S5", "S6", "S7", "S8", "S8a", "S9"], alpha: Alpha::Full, oracles: vec![oracle] };
     let core = PuChecker { name: "c01-pu-core".into(), seeds: vec!["S2", "S4"], alpha: Alpha::SwapFocus, oracles: vec![oracle] };
     vec![explore_job(full, tier.pick(2, 3), Caps::default()), explore_job(core, tier.pick(3, 4), Caps::default())]
 }
